@@ -79,6 +79,10 @@ class LoopbackServer:
                     outer.log.append(rec)
                 try:
                     status, headers, payload = outer.behaviour(rec)
+                except ConnectionAbortedError:  # scripted network error: drop the connection without answering
+                    rec.status = -1
+                    self.close_connection = True
+                    return
                 except Exception as exc:  # a broken script must be visible, not silent
                     status, headers, payload = 599, [("Content-Type", "text/plain")], repr(exc).encode()
                 rec.status = status
